@@ -323,3 +323,65 @@ Definition sets_shared_ok (e : env) (t : ty) (x : hval) : bool := sets_all (fun 
 (* the domain on which the generated comparison is claimed to be structural equality *)
 Definition eq_domain (e : env) (t : ty) (x y : hval) : bool :=
   shape e false t x && shape e false t y && no_struct_keys x && no_struct_keys y && shared_okb x y.
+
+(* ---- deep copies ----
+   readdr d x: the same tree built from other objects (every address shifted by d);
+   disjointb x y: no address of x occurs in y (y was built from fresh objects) *)
+Fixpoint readdr (d : Z) (x : hval) {struct x} : hval :=
+  match x with
+  | HList l => HList (map (readdr d) l)
+  | HMap m => HMap (map (fun kv => (readdr d (fst kv), readdr d (snd kv))) m)
+  | HStruct a fs => HStruct (a + d) (map (fun p => (fst p, readdr d (snd p))) fs)
+  | HSome a v => HSome (a + d) (readdr d v)
+  | _ => x
+  end.
+
+Definition disjointb (x y : hval) : bool :=
+  forallb (fun p => forallb (fun q => negb (fst p =? fst q)) (ptrs y)) (ptrs x).
+
+(* ---- what the generated comparison computes on ALL shaped values ----
+   same_pk: structural equality in which a map key is matched the way Go matches it (hkey_eq: base
+   keys by value, a struct-typed key by the identity of the object).  It differs from [same] only
+   in the key test of the map case; without struct-typed keys the two coincide. *)
+Fixpoint same_pk (x y : hval) {struct x} : bool :=
+  match x with
+  | HBool a => match y with HBool b => Bool.eqb a b | _ => false end
+  | HInt a => match y with HInt b => a =? b | _ => false end
+  | HDbl a => match y with HDbl b => feq a b | _ => false end
+  | HStr a => match y with HStr b => beqb a b | _ => false end
+  | HBin a => match y with HBin b => beqb a b | HNil => is_empty a | _ => false end
+  | HNil => match y with HNil => true | HBin b => is_empty b | HList l => is_empty l | HMap m => is_empty m | _ => false end
+  | HSome _ u => match y with HSome _ w => same_pk u w | _ => false end
+  | HList lx => match y with HList ly => all2 same_pk lx ly | HNil => is_empty lx | _ => false end
+  | HMap mx =>
+      match y with
+      | HMap my =>
+          (length mx =? length my)%nat &&
+          forallb (fun kv => existsb (fun kv' => hkey_eq (fst kv) (fst kv') && same_pk (snd kv) (snd kv')) my) mx &&
+          forallb (fun kv' => existsb (fun kv => hkey_eq (fst kv) (fst kv') && same_pk (snd kv) (snd kv')) mx) my
+      | HNil => is_empty mx
+      | _ => false end
+  | HStruct _ fs =>
+      match y with
+      | HStruct _ gs => all2 (fun p q => (fst p =? fst q) && same_pk (snd p) (snd q)) fs gs
+      | _ => false end
+  end.
+
+(* every map key is comparable in Go (true for every shaped value) *)
+Fixpoint keys_ok (x : hval) : bool :=
+  match x with
+  | HList l => forallb keys_ok l
+  | HMap m => forallb (fun kv => keyable (fst kv) && keys_ok (fst kv) && keys_ok (snd kv)) m
+  | HStruct _ fs => forallb (fun p => keys_ok (snd p)) fs
+  | HSome _ u => keys_ok u
+  | _ => true
+  end.
+
+(* an address occurring in x and in y names one object; it holds no NaN (and comparable keys) *)
+Definition heap_okb (x y : hval) : bool :=
+  forallb (fun p => forallb (fun q => negb (fst p =? fst q) ||
+                                      (heqb (snd p) (snd q) && nan_free (snd p) && keys_ok (snd p))) (ptrs y)) (ptrs x).
+
+(* the domain of the exact statement for one set: elements shaped, pairwise consistent heaps *)
+Definition set_domain_pk (e : env) (et : ty) (l : list hval) : bool :=
+  pairwise (fun a b => shape e false et a && shape e false et b && heap_okb a b) l.
